@@ -90,8 +90,30 @@ def conditioning(inp):
     if inp.periodic:
         r = (-1, 0, 1)
         shifts = [(a, b if d >= 2 else 0, c if d >= 3 else 0) for a in r for b in (r if d >= 2 else (0,)) for c in (r if d >= 3 else (0,))]
-    best = None
     g = inp.ngens
+    if len(g) > 40:
+        # large inputs: closest pair by a sweep along x in floating point (the result is a float heuristic anyway)
+        pts = []
+        for i, p in enumerate(g):
+            fp = [float(p[k]) for k in range(3)]
+            for s in shifts:
+                pts.append((fp[0] - s[0] * float(inp.nw[0]), fp[1] - s[1] * float(inp.nw[1]), fp[2] - s[2] * float(inp.nw[2])))
+        pts.sort()
+        bestf = None
+        for i in range(len(pts)):
+            a = pts[i]
+            for j in range(i + 1, len(pts)):
+                b = pts[j]
+                dx = b[0] - a[0]
+                if bestf is not None and dx * dx >= bestf:
+                    break
+                dd = dx * dx + (b[1] - a[1]) ** 2 + (b[2] - a[2]) ** 2
+                if dd > 0 and (bestf is None or dd < bestf):
+                    bestf = dd
+        if bestf is None:
+            return 0.0
+        return float(mx) * 2.0 ** -52 / bestf ** 0.5
+    best = None
     for i in range(len(g)):
         for j in range(i, len(g)):
             for s in shifts:
